@@ -219,6 +219,12 @@ class SchedRun:
             return history.Req(k='claim', id=None, in_epic=None, agent=rng.choice(history.AGENTS))
         if name == 'new':
             return history.Req(k='new', epic=False, mode='json', fields={'title': 'fresh %d' % rng.randrange(1000)}, agent=None)
+        if name == 'finish':
+            todo = [t for t in tasks if t['state'] == 'todo' and not t['claimed_by']]
+            if not todo:
+                return None
+            todo.sort(key=lambda t: (t['created'], t['id']))
+            return history.Req(k='set', epic=False, id=todo[0]['id'], mode='json', fields={'state': rng.choice(['done', 'canceled'])}, agent=None)
         if name == 'reopen':
             fin = [t for t in tasks if t['state'] in ('done', 'canceled')]
             if not fin:
